@@ -103,65 +103,101 @@ class Rec:
         return ("<%s>" % self.tag, len(self.calls))
 
 
+def _stats_match(I, got, arrays, ubm_of, fields, name, out, what):
+    """the statistics handed to the statistics-level function are the UBM statistics of the arrays, in the fields that
+    function reads (however the code obtained them: GMMMachine.acc_stats or an accumulation of its own)"""
+    if not isinstance(got, (list, tuple)) or len(got) != len(arrays):
+        out.append(Clause(name, "refuted", "npsym", "%s must receive a LIST with one statistic per array (its contract iterates over it); it received %s"
+                          % (what, V._kind(got))))
+        return
+    F = G.facts()
+    for k, (st, X) in enumerate(zip(got, arrays)):
+        if not isinstance(st, Obj) or st.cls.name != "GMMStats":
+            out.append(Clause(name, "refuted", "npsym", "%s received %s where a GMMStats is required" % (what, V._kind(st))))
+            return
+        exp = G.spec_e_step(None, X, ubm_of())
+        for f in fields:
+            V.compare(st.fields.get(f), exp.fields[f], F, "%s.stat%d.%s" % (name, k, f), out)
+
+
 def entries(ctx):
-    """array-level entry points apply the statistics-level ones to the UBM statistics of the same arrays"""
+    """array-level entry points apply the statistics-level ones to the UBM statistics of the same arrays
+    (frames given as a 2-D array, and ONE frame given as a 1-D vector)"""
     out = []
     FA.setup()
+    acc_contract = K.as_contract(lambda ctx_, self, data: G.spec_e_step(ctx_, data, self))
     try:
-        # ISVMachine.transform(X) == estimate_ux([ubm.acc_stats(X)])
-        I = new_interp()
-        acc, eux = Rec("acc_stats"), Rec("estimate_ux")
-        I.contracts["gmm.GMMMachine.acc_stats"] = K.as_contract(acc)
-        I.contracts[Q + "estimate_ux"] = K.as_contract(eux)
-        m = FA.mk_fa(I, "ISVMachine", with_v=False)
-        X = G.mk_data()
-        try:
-            paths = I.run_paths(lambda: I.call(K.lookup(I, "factor_analysis.ISVMachine.transform"), [m, X], {}))
-            ok = False
-            why = ""
-            for pc, (k, r) in paths:
-                if k != "ok":
-                    why = "raises %s" % (r,)
-                    continue
-                if len(acc.calls) >= 1 and len(eux.calls) >= 1:
-                    arg = eux.calls[-1][0][1]
-                    ok = isinstance(arg, (list, tuple)) and len(arg) == 1 and arg[0] == ("<acc_stats>", 1) and acc.calls[0][0][1] is X and r == ("<estimate_ux>", 1)
-                    why = "estimate_ux received %r" % (arg,)
-            out.append(Clause("C11.entry.transform", "discharged" if ok else "refuted", "npsym",
-                              "ISVMachine.transform(X) == estimate_ux([ubm.acc_stats(X)])" if ok else
-                              "estimate_ux must receive a LIST of statistics (its contract iterates over it): " + why))
-        except ModelError as e:
-            out.append(Clause("C11.entry.transform", "undecided", "", str(e)))
-        # enroll_using_array(X) == enroll([ubm.acc_stats(X)])   (base class and ISV override)
-        for cls in ("ISVMachine", "JFAMachine"):
+        for ndim in (2, 1):
+            tag = "" if ndim == 2 else "[1-D frame]"
+            # ISVMachine.transform(X) == estimate_ux([UBM statistics of X])
             I = new_interp()
-            acc, enr = Rec("acc_stats"), Rec("enroll")
-            I.contracts["gmm.GMMMachine.acc_stats"] = K.as_contract(acc)
-            I.contracts["factor_analysis.%s.enroll" % cls] = K.as_contract(enr)
-            m = FA.mk_fa(I, cls, with_v=(cls == "JFAMachine"))
-            X = G.mk_data()
-            paths = I.run_paths(lambda: I.call(I.getattr(m, "enroll_using_array"), [X], {}))
-            ok = len(paths) == 1 and paths[0][1][0] == "ok" and len(enr.calls) == 1 and isinstance(enr.calls[0][0][1], list) \
-                and enr.calls[0][0][1] == [("<acc_stats>", 1)] and acc.calls[0][0][1] is X and paths[0][1][1] == ("<enroll>", 1)
-            out.append(Clause("C11.entry.enroll_using_array", "discharged" if ok else "refuted", "npsym",
-                              "%s.enroll_using_array(X) == enroll([ubm.acc_stats(X)])" % cls))
-            # score_using_array(model, data) == score(model, [ubm.acc_stats(d) for d in data])
-            I = new_interp()
-            acc, sc = Rec("acc_stats"), Rec("score")
-            I.contracts["gmm.GMMMachine.acc_stats"] = K.as_contract(acc)
-            I.contracts["factor_analysis.%s.score" % cls] = K.as_contract(sc)
-            m = FA.mk_fa(I, cls, with_v=(cls == "JFAMachine"))
-            d1, d2 = G.mk_data("xa"), G.mk_data("xb")
-            paths = I.run_paths(lambda: I.call(I.getattr(m, "score_using_array"), ["<model>", [d1, d2]], {}))
-            ok = len(paths) == 1 and paths[0][1][0] == "ok" and len(sc.calls) == 1 and sc.calls[0][0][1] == "<model>" \
-                and sc.calls[0][0][2] == [("<acc_stats>", 1), ("<acc_stats>", 2)] and acc.calls[0][0][1] is d1 and acc.calls[1][0][1] is d2
-            out.append(Clause("C11.entry.score_using_array", "discharged" if ok else "refuted", "npsym",
-                              "%s.score_using_array(model, arrays) == score(model, [ubm.acc_stats(a) for a in arrays])" % cls))
+            G._INTERP[0] = I
+            eux = Rec("estimate_ux")
+            I.contracts["gmm.GMMMachine.acc_stats"] = acc_contract
+            I.contracts[Q + "estimate_ux"] = K.as_contract(eux)
+            m = FA.mk_fa(I, "ISVMachine", with_v=False)
+            X = G.mk_data(ndim=ndim)
+            name = "C11.entry.transform"
+            try:
+                paths = I.run_paths(lambda: I.call(K.lookup(I, "factor_analysis.ISVMachine.transform"), [m, X], {}))
+                if len(paths) != 1 or paths[0][1][0] != "ok" or len(eux.calls) != 1:
+                    out.append(Clause(name, "undecided", "", "transform%s: %d paths, %d calls of estimate_ux: %r" % (tag, len(paths), len(eux.calls), paths[0][1])))
+                elif paths[0][1][1] != ("<estimate_ux>", 1):
+                    out.append(Clause(name, "refuted", "npsym", "transform%s does not return what estimate_ux returns" % tag))
+                else:
+                    n0 = len(out)
+                    _stats_match(I, eux.calls[0][0][1], [X], lambda: FA.mk_fa(I, "ISVMachine", with_v=False).fields["ubm"], ("n", "sum_px"), name, out, "estimate_ux")
+                    if len(out) == n0:
+                        out.append(Clause(name, "undecided", "", "nothing compared"))
+            except ModelError as e:
+                out.append(Clause(name, "undecided", "", "%s%s" % (e, tag)))
+            # enroll_using_array(X) == enroll([UBM statistics of X])   (base class and ISV override)
+            for cls in ("ISVMachine", "JFAMachine"):
+                mk = lambda cls=cls: FA.mk_fa(I, cls, with_v=(cls == "JFAMachine"))
+                I = new_interp()
+                G._INTERP[0] = I
+                enr = Rec("enroll")
+                I.contracts["gmm.GMMMachine.acc_stats"] = acc_contract
+                I.contracts["factor_analysis.%s.enroll" % cls] = K.as_contract(enr)
+                m = mk()
+                X = G.mk_data(ndim=ndim)
+                name = "C11.entry.enroll_using_array"
+                try:
+                    paths = I.run_paths(lambda: I.call(I.getattr(m, "enroll_using_array"), [X], {}))
+                    if len(paths) != 1 or paths[0][1][0] != "ok" or len(enr.calls) != 1:
+                        out.append(Clause(name, "undecided", "", "%s.enroll_using_array%s: %d paths, %d calls of enroll" % (cls, tag, len(paths), len(enr.calls))))
+                    elif paths[0][1][1] != ("<enroll>", 1):
+                        out.append(Clause(name, "refuted", "npsym", "%s.enroll_using_array%s does not return what enroll returns" % (cls, tag)))
+                    else:
+                        _stats_match(I, enr.calls[0][0][1], [X], lambda: mk().fields["ubm"], ("n", "sum_px"), name, out, "enroll")
+                except ModelError as e:
+                    out.append(Clause(name, "undecided", "", "%s %s%s" % (cls, e, tag)))
+                # score_using_array(model, data) == score(model, [UBM statistics of d for d in data])
+                I = new_interp()
+                G._INTERP[0] = I
+                sc = Rec("score")
+                I.contracts["gmm.GMMMachine.acc_stats"] = acc_contract
+                I.contracts["factor_analysis.%s.score" % cls] = K.as_contract(sc)
+                m = mk()
+                d1, d2 = G.mk_data("xa", ndim=ndim), G.mk_data("xb", ndim=ndim)
+                name = "C11.entry.score_using_array"
+                try:
+                    paths = I.run_paths(lambda: I.call(I.getattr(m, "score_using_array"), ["<model>", [d1, d2]], {}))
+                    if len(paths) != 1 or paths[0][1][0] != "ok" or len(sc.calls) != 1:
+                        out.append(Clause(name, "undecided", "", "%s.score_using_array%s: %d paths, %d calls of score" % (cls, tag, len(paths), len(sc.calls))))
+                    elif sc.calls[0][0][1] != "<model>" or paths[0][1][1] != ("<score>", 1):
+                        out.append(Clause(name, "refuted", "npsym", "%s.score_using_array%s does not pass the model on / return the score" % (cls, tag)))
+                    else:
+                        # score reads n, sum_px and the frame count t (frame-length normalisation)
+                        _stats_match(I, sc.calls[0][0][2], [d1, d2], lambda: mk().fields["ubm"], ("n", "sum_px", "t"), name, out, "score")
+                except ModelError as e:
+                    out.append(Clause(name, "undecided", "", "%s %s%s" % (cls, e, tag)))
     finally:
         T.PRODUCTS[:] = []
     res = []
     for nm in ("transform", "enroll_using_array", "score_using_array"):
-        res += collapse([c for c in out if c.name == "C11.entry." + nm], "C11.entry." + nm, "")
+        res += collapse([c for c in out if c.name.startswith("C11.entry." + nm)] or [Clause("x", "undecided", "", "no clause")], "C11.entry." + nm,
+                        "the statistics-level function receives a list holding the UBM statistics of each array (n, sum_px%s), and its result is returned" % (", t" if nm.startswith("score") else ""))
     return res
 
 
